@@ -3,13 +3,13 @@ From Coq Require Import Floats Zpow_facts.
 From Miller Require Import Base.Bytes C06.Model C07.Model C07.Proofs.
 Open Scope Z_scope.
 
-(* mlrmod with a positive modulus is the mathematical mod *)
-Lemma mlrmod_pos x m : in64 x = true -> in64 m = true -> 0 < m -> mlrmod x m = Some (x mod m).
+(* mlrmod with a positive modulus is the mathematical mod, for EVERY (unbounded) dividend *)
+Lemma mlrmod_pos x m : in64 m = true -> 0 < m -> mlrmod x m = Some (x mod m).
 Proof.
-  intros Hx Hm Hpos. unfold mlrmod, go_rem. destruct (Z.eqb_spec m 0) as [|_]; [lia|]. f_equal.
+  intros Hm Hpos. unfold mlrmod, go_rem. destruct (Z.eqb_spec m 0) as [|_]; [lia|]. f_equal.
   pose proof (Z.quot_rem' x m) as Hqr. pose proof (Z.rem_bound_abs x m ltac:(lia)) as Hrb.
   set (q := Z.quot x m) in *. set (r := Z.rem x m) in *.
-  apply in64_iff in Hx, Hm. consts.
+  apply in64_iff in Hm. consts.
   destruct (Z.ltb_spec r 0) as [Hneg|Hnn].
   - rewrite wrap64_id by (apply in64_iff; consts; lia).
     apply (Z.mod_unique x m (q - 1) (r + m)); [left; lia|lia].
@@ -20,48 +20,43 @@ Lemma mlrmod_zero x : mlrmod x 0 = None. Proof. reflexivity. Qed.
 Lemma mlrmod_nonzero x m : m <> 0 -> mlrmod x m <> None.
 Proof. intros H. unfold mlrmod. destruct (Z.eqb_spec m 0); [contradiction|discriminate]. Qed.
 
-Lemma madd_exact a b m : in64 m = true -> 0 < m -> in64 (a + b) = true ->
+(* madd / msub / mmul: the exact sum, difference, product is reduced (math/big intermediates): ALL operands *)
+Lemma madd_exact a b m : in64 m = true -> 0 < m ->
   eval_tern TMadd (NInt a) (NInt b) (NInt m) = RInt ((a + b) mod m).
 Proof.
-  intros Hm Hpos Hs. cbn [eval_tern]. destruct (Z.eqb_spec m 0); [lia|]. unfold imodadd. rewrite (wrap64_id _ Hs), (mlrmod_pos _ _ Hs Hm Hpos). reflexivity.
+  intros Hm Hpos. cbn [eval_tern]. destruct (Z.eqb_spec m 0); [lia|]. unfold imodadd. rewrite (mlrmod_pos _ _ Hm Hpos). reflexivity.
 Qed.
-Lemma msub_exact a b m : in64 m = true -> 0 < m -> in64 (a - b) = true ->
+Lemma msub_exact a b m : in64 m = true -> 0 < m ->
   eval_tern TMsub (NInt a) (NInt b) (NInt m) = RInt ((a - b) mod m).
 Proof.
-  intros Hm Hpos Hs. cbn [eval_tern]. destruct (Z.eqb_spec m 0); [lia|]. unfold imodsub. rewrite (wrap64_id _ Hs), (mlrmod_pos _ _ Hs Hm Hpos). reflexivity.
+  intros Hm Hpos. cbn [eval_tern]. destruct (Z.eqb_spec m 0); [lia|]. unfold imodsub. rewrite (mlrmod_pos _ _ Hm Hpos). reflexivity.
 Qed.
-Lemma mmul_exact a b m : in64 m = true -> 0 < m -> in64 (a * b) = true ->
+Lemma mmul_exact a b m : in64 m = true -> 0 < m ->
   eval_tern TMmul (NInt a) (NInt b) (NInt m) = RInt ((a * b) mod m).
 Proof.
-  intros Hm Hpos Hs. cbn [eval_tern]. destruct (Z.eqb_spec m 0); [lia|]. unfold imodmul. rewrite (wrap64_id _ Hs), (mlrmod_pos _ _ Hs Hm Hpos). reflexivity.
+  intros Hm Hpos. cbn [eval_tern]. destruct (Z.eqb_spec m 0); [lia|]. unfold imodmul. rewrite (mlrmod_pos _ _ Hm Hpos). reflexivity.
 Qed.
 
-(* in general the sum/difference/product is reduced AFTER wrapping to 64 bits *)
-Lemma mop_general a b m : in64 m = true -> 0 < m ->
-  eval_tern TMadd (NInt a) (NInt b) (NInt m) = RInt (wrap64 (a + b) mod m) /\
-  eval_tern TMsub (NInt a) (NInt b) (NInt m) = RInt (wrap64 (a - b) mod m) /\
-  eval_tern TMmul (NInt a) (NInt b) (NInt m) = RInt (wrap64 (a * b) mod m).
+(* the result is the canonical residue *)
+Lemma mod_op_range op a b m r : in64 m = true -> 0 < m -> In op [TMadd; TMsub; TMmul] ->
+  eval_tern op (NInt a) (NInt b) (NInt m) = RInt r -> 0 <= r < m.
 Proof.
-  intros Hm Hpos. cbn [eval_tern]. destruct (Z.eqb_spec m 0); [lia|]. unfold imodadd, imodsub, imodmul.
-  rewrite !(mlrmod_pos _ _ (wrap64_in64 _) Hm Hpos). repeat split.
+  intros Hm Hpos Hin H. cbn [In] in Hin.
+  destruct Hin as [<-|[<-|[<-|[]]]];
+    [rewrite (madd_exact a b m Hm Hpos) in H|rewrite (msub_exact a b m Hm Hpos) in H|rewrite (mmul_exact a b m Hm Hpos) in H];
+    inversion H; apply Z.mod_pos_bound; exact Hpos.
 Qed.
 
-(* mexp: repeated squaring.  Bound: |a| and m at most 3037000499 = floor(sqrt(2^63 - 1)) so no product wraps. *)
-Definition sq_bound : Z := 3037000499.
-
-Lemma mexp_loop_spec m : in64 m = true -> 0 < m -> m <= sq_bound ->
-  forall fuel u ap c, 0 < u < 2 ^ Z.of_nat fuel -> Z.abs ap <= sq_bound -> (0 <= c < m \/ c = 1) ->
+(* mexp: repeated squaring, every product exact: invariant c * apower^u = a^e (mod m), no bound on a or m *)
+Lemma mexp_loop_spec m : in64 m = true -> 0 < m ->
+  forall fuel u ap c, 0 < u < 2 ^ Z.of_nat fuel ->
   mexp_loop fuel u ap c m = Some ((c * ap ^ u) mod m).
 Proof.
-  intros Hm Hpos Hmb. unfold sq_bound in *.
-  induction fuel as [|k IH]; intros u ap c Hu Hap Hc.
+  intros Hm Hpos.
+  induction fuel as [|k IH]; intros u ap c Hu.
   - cbn in Hu. lia.
   - cbn [mexp_loop]. destruct (Z.eqb_spec u 0) as [|_]; [lia|].
-    assert (Hin1 : in64 (c * ap) = true) by (apply in64_iff; consts; apply in64_iff in Hm; consts; nia).
-    assert (Hin2 : in64 (ap * ap) = true) by (apply in64_iff; consts; nia).
-    rewrite (wrap64_id _ Hin1), (wrap64_id _ Hin2), (mlrmod_pos _ _ Hin1 Hm Hpos), (mlrmod_pos _ _ Hin2 Hm Hpos).
-    pose proof (Z.mod_pos_bound (ap * ap) m Hpos) as Hb2.
-    pose proof (Z.mod_pos_bound (c * ap) m Hpos) as Hb1.
+    unfold imodmul. rewrite !(mlrmod_pos _ _ Hm Hpos).
     pose proof (Z.div_mod u 2 ltac:(lia)) as Hdm.
     assert (Hu2 : u / 2 < 2 ^ Z.of_nat k).
     { rewrite Nat2Z.inj_succ, Z.pow_succ_r in Hu by lia. apply Z.div_lt_upper_bound; lia. }
@@ -71,31 +66,30 @@ Proof.
     + assert (Hmod : u mod 2 = 1) by (rewrite Zmod_odd, Eo; reflexivity).
       destruct (Z.eq_dec (u / 2) 0) as [Hz|Hnz].
       * assert (u = 1) by lia. subst u. destruct k; cbn [mexp_loop Z.div]; rewrite ?Z.pow_1_r; reflexivity.
-      * rewrite IH; [|lia|lia|left; lia]. f_equal.
+      * rewrite IH; [|lia]. f_equal.
         replace u with (2 * (u / 2) + 1) at 2 by lia.
         rewrite Z.pow_add_r, Z.pow_1_r by lia.
         rewrite Z.mul_mod_idemp_l by lia.
         rewrite <- Z.mul_mod_idemp_r by lia. rewrite Hsq by lia.
         rewrite Z.mul_mod_idemp_r by lia. f_equal. lia.
     + assert (Hmod : u mod 2 = 0) by (rewrite Zmod_odd, Eo; reflexivity).
-      rewrite IH; [|lia|lia|exact Hc]. f_equal.
+      rewrite IH; [|lia]. f_equal.
       replace u with (2 * (u / 2)) at 2 by lia.
       rewrite <- Z.mul_mod_idemp_r by lia. rewrite Hsq by lia.
       rewrite Z.mul_mod_idemp_r by lia. reflexivity.
 Qed.
 
-Lemma mexp_exact a e m : in64 m = true -> 0 < m -> m <= sq_bound -> Z.abs a <= sq_bound -> 0 <= e -> in64 e = true ->
+Lemma mexp_exact a e m : in64 m = true -> 0 < m -> 0 <= e -> in64 e = true ->
   eval_tern TMexp (NInt a) (NInt e) (NInt m) = RInt (a ^ e mod m).
 Proof.
-  intros Hm Hpos Hmb Ha He Hei. cbn [eval_tern]. destruct (Z.ltb_spec e 0); [lia|].
+  intros Hm Hpos He Hei. cbn [eval_tern]. destruct (Z.ltb_spec e 0); [lia|].
   destruct (Z.eqb_spec m 0); [lia|].
-  unfold imodexp. rewrite (mlrmod_pos 1 m eq_refl Hm Hpos).
-  pose proof (Z.mod_pos_bound 1 m Hpos) as Hc0.
+  unfold imodexp. rewrite (mlrmod_pos 1 m Hm Hpos).
   apply in64_iff in Hei. consts.
   assert (Hu : u64 e = e) by (unfold u64; consts; apply Z.mod_small; lia).
   rewrite Hu. destruct (Z.eq_dec e 0) as [->|He0].
   - cbn [mexp_loop Z.eqb]. rewrite Z.pow_0_r. reflexivity.
-  - rewrite (mexp_loop_spec m Hm Hpos Hmb 64 e a (1 mod m)); [|change (2 ^ Z.of_nat 64) with 18446744073709551616; lia|exact Ha|left; exact Hc0].
+  - rewrite (mexp_loop_spec m Hm Hpos 64 e a (1 mod m)); [|change (2 ^ Z.of_nat 64) with 18446744073709551616; lia].
     rewrite Z.mul_mod_idemp_l by lia. rewrite Z.mul_1_l. reflexivity.
 Qed.
 
@@ -108,10 +102,11 @@ Proof. repeat split. Qed.
 Lemma mexp_negative_exponent_error a e m : e < 0 -> eval_tern TMexp (NInt a) (NInt e) (NInt m) = RError.
 Proof. intros H. cbn [eval_tern]. destruct (Z.ltb_spec e 0); [reflexivity|lia]. Qed.
 
-(* intermediate wrap witnesses: sum and product reduced after wrapping *)
-Lemma mop_wrap_witness :
-  eval_tern TMadd (NInt (2 ^ 62)) (NInt (2 ^ 62)) (NInt 3) = RInt 1 /\ (2 ^ 62 + 2 ^ 62) mod 3 = 2 /\
-  eval_tern TMmul (NInt (2 ^ 32)) (NInt (2 ^ 32)) (NInt 7) = RInt 0 /\ (2 ^ 32 * 2 ^ 32) mod 7 = 2.
+(* the former reduce-after-wrap witnesses are now exact (regression anchors) *)
+Lemma mop_former_wrap_witnesses :
+  eval_tern TMadd (NInt (2 ^ 62)) (NInt (2 ^ 62)) (NInt 3) = RInt 2 /\ (2 ^ 62 + 2 ^ 62) mod 3 = 2 /\
+  eval_tern TMmul (NInt (2 ^ 32)) (NInt (2 ^ 32)) (NInt 7) = RInt 2 /\ (2 ^ 32 * 2 ^ 32) mod 7 = 2 /\
+  eval_tern TMexp (NInt (2 ^ 32)) (NInt 3) (NInt 3) = RInt 1 /\ (2 ^ 32) ^ 3 mod 3 = 1.
 Proof. repeat split. Qed.
 
 (* ---------------------------------------------------------------- panics *)
@@ -120,9 +115,9 @@ Proof.
   intros Hm. induction fuel as [|k IH]; intros u ap c; cbn [mexp_loop]; [discriminate|].
   destruct (u =? 0); [discriminate|].
   destruct (Z.odd u).
-  - destruct (mlrmod (wrap64 (c * ap)) m) eqn:E1; [|exfalso; exact (mlrmod_nonzero _ _ Hm E1)].
-    destruct (mlrmod (wrap64 (ap * ap)) m) eqn:E2; [apply IH|exfalso; exact (mlrmod_nonzero _ _ Hm E2)].
-  - destruct (mlrmod (wrap64 (ap * ap)) m) eqn:E2; [apply IH|exfalso; exact (mlrmod_nonzero _ _ Hm E2)].
+  - unfold imodmul. destruct (mlrmod (c * ap) m) eqn:E1; [|exfalso; exact (mlrmod_nonzero _ _ Hm E1)].
+    destruct (mlrmod (ap * ap) m) eqn:E2; [apply IH|exfalso; exact (mlrmod_nonzero _ _ Hm E2)].
+  - unfold imodmul. destruct (mlrmod (ap * ap) m) eqn:E2; [apply IH|exfalso; exact (mlrmod_nonzero _ _ Hm E2)].
 Qed.
 
 Lemma tern_no_panic op x y z : eval_tern op x y z <> RPanic.
@@ -139,36 +134,3 @@ Qed.
 (* a zero modulus is an error value *)
 Lemma tern_zero_modulus_error op a b : eval_tern op (NInt a) (NInt b) (NInt 0) = RError.
 Proof. destruct op; cbn [eval_tern]; try reflexivity. destruct (b <? 0); reflexivity. Qed.
-
-Lemma un_no_panic op x : eval_un op x <> RPanic.
-Proof. destruct op, x; discriminate. Qed.
-
-Ltac top_cases :=
-  cbv zeta;
-  repeat (match goal with
-          | |- (if ?c then _ else _) <> _ => destruct c
-          | |- (match ?c with Some _ => _ | None => _ end) <> _ => destruct c
-          end; cbv zeta);
-  try (intros HH; discriminate HH).
-
-Lemma bin_no_panic op x y : eval_bin op x y <> RPanic.
-Proof.
-  destruct op; destruct x as [a|fa], y as [b|fb];
-    cbn [eval_bin min_variadic2 max_variadic2 min_bin max_bin num_of_res to_f];
-    try (intros H; discriminate H).
-  - unfold plus_ii. top_cases.
-  - unfold minus_ii. top_cases.
-  - unfold times_ii. top_cases.
-  - unfold divide_ii. top_cases.
-  - unfold int_divide_ii. top_cases.
-  - unfold modulus_ii. top_cases.
-  - unfold pow_ii. top_cases.
-  - unfold pow_ff. top_cases.
-  - unfold pow_ff. top_cases.
-  - unfold pow_ff. top_cases.
-  - unfold dotdivide_ii. top_cases.
-  - unfold lsh_ii. top_cases.
-  - unfold srsh_ii. top_cases.
-  - unfold ursh_ii. top_cases.
-Qed.
-
